@@ -6,7 +6,7 @@ from ..mir import switch_conds, cmp_true_false_edges, storage_call
 from ..dataflow import (two_var_table, call_of, cond_at, message_creations, forward_flow, single_var_guard,
                         single_var_regions, single_var_walk, const_of)
 from ..guards import EqGuard, site_guarded, is_sender, is_self_addr, resolve
-from .common import storage_calls, arg_origins, ok_value_blocks, must_pass_through
+from .common import storage_calls, arg_origins, ok_value_blocks, must_pass_through, vec_additions
 from .C12 import check_messages_attached
 
 EXPLANATION = """
@@ -70,8 +70,8 @@ def check_flash_loan(ctx, model):
     amount = pidx(v, "cosmwasm_std::Uint128")
     payload = pidx(v, "cosmwasm_std::Binary")
     pushes = []
-    for b, t in v.calls_to(r"^std::vec::Vec::push$"):
-        os_ = v.origins_of_operand(t["args"][1], at=v.at_term(b))
+    for b, t, elem, how, at_ in vec_additions(v, r"CosmosMsg"):
+        os_ = v.origins_of_operand(elem, at=at_)
         kind = None
         for o in os_:
             if o.kind != "agg" or not o.a.endswith("WasmMsg::Execute"):
